@@ -86,6 +86,16 @@ class Values:
                 self.key(slf) if slf is not None and not isinstance(slf, type(sys)) else None,
                 len(clo) if clo else 0,
             )
+        # plain data holder (e.g. a small wrapper class of the code under test): structural key
+        slots = getattr(t, '__slots__', None)
+        d = getattr(v, '__dict__', None)
+        if (slots is not None or d is not None) and t.__module__ not in ('builtins',):
+            names = list(slots or ()) if isinstance(slots, (tuple, list)) else ([slots] if isinstance(slots, str) else [])
+            items = [(n, getattr(v, n)) for n in names if hasattr(v, n)]
+            if d:
+                items += sorted(d.items())
+            if len(items) <= 6:
+                return ('inst', t.__module__, t.__qualname__, tuple((n, self.key(x)) for n, x in items))
         raise Unsupported(f'cannot intern value of type {t.__module__}.{t.__qualname__}: {v!r}')
 
     def intern(self, v):
